@@ -130,9 +130,10 @@ Qed.
 (* the model's own correspondence check is reflexive: a model run is what the case evaluation
    compares the implementation with *)
 Theorem lst_corr_model own a s its :
+  no_cancel own a s its = true ->
   lst_corr a own s its ([EListen] :: snd (run own a s its) ++ [[ELogErr]]) (fst (run own a s its)) = true.
 Proof.
-  unfold lst_corr. rewrite thread_total. destruct (run own a s its) as [s2 segs]. cbn [fst snd].
+  intros Hnc. unfold lst_corr. rewrite (thread_total own a s its Hnc). destruct (run own a s its) as [s2 segs]. cbn [fst snd].
   rewrite !mgr_eqb_refl, segs_eqb_refl. cbn [andb].
   replace (List.concat ([EListen] :: segs ++ [[ELogErr]])) with (EListen :: List.concat segs ++ [ELogErr]).
   - rewrite effs_eqb_refl. reflexivity.
